@@ -22,7 +22,9 @@ ASSUMPTIONS = [
 
 
 def bounds(tier):
-    return dict(instances="every concrete kit class x fills {0,1} x star lengths {3,8}" if tier == "thorough" else "every concrete kit class x fill 0 x star lengths {3,8}",
+    return dict(linear_molecules="every rotation of the accepted generic records (default lengths) and of the accepted unmodified kit instances, declared linear "
+                                 "(plain SeqRecord, topology linear / Linear / LINEAR / annotated): accepted only if readable without crossing the ends, with those overhangs",
+                instances="every concrete kit class x fills {0,1} x star lengths {3,8}" if tier == "thorough" else "every concrete kit class x fill 0 x star lengths {3,8}",
                 modifications="none; one extra site of the class cutter (both orientations) at 5 places; every single-letter substitution (3 alternatives) of the instance",
                 classes="all concrete kit classes (every record is offered to every class) + generic classes over all enzymes",
                 degenerate_sites="generic module/vector over every enzyme whose site has ambiguity codes (LpnPI, SgrTI, MspJI, AspBHI): near side = first/last expansion, far side = every ACGT word of the site length, 3 rotations",
